@@ -423,7 +423,9 @@ func c11SelLists(full bool) (out [][]aSel) {
 
 func c11Conds() (out []aCond) {
 	fl := []aArg{{"f", "f", "Field"}, {"$v", "$v", "Field"}, {"3", "3", "Float"}}
-	fr := []aArg{{"$v", "$v", "Field"}, {"5", "5", "Float"}, {"2.5", "2.5", "Float"}, {"g", "g", "Field"}}
+	fr := []aArg{{"$v", "$v", "Field"}, {"5", "5", "Float"}, {"2.5", "2.5", "Float"}, {"g", "g", "Field"},
+		// every spelling of a decimal number: exponent notation, explicit sign, leading / trailing dot, leading zeros
+		{"1e3", "1e3", "Float"}, {"1E3", "1E3", "Float"}, {"2.5e-3", "2.5e-3", "Float"}, {"-1.5e6", "-1.5e6", "Float"}, {"+5", "+5", "Float"}, {".5", ".5", "Float"}, {"5.", "5.", "Float"}, {"007", "007", "Float"}, {"-0", "-0", "Float"}}
 	for _, op := range []string{"==", "!=", "<", "<=", "=<", ">", ">=", "=>"} {
 		for _, l := range fl {
 			for _, r := range fr {
